@@ -11,6 +11,12 @@ S1  TLC explores spec/Throttle.tla (PlusCal; labels = th.* yield hooks of flow.T
     threshold factor are state; a request is held to the parameters in force at its arrival; Spacing is owed within one
     epoch of the rule list - see ThrottleProp for what is accepted across a reload).  Spec-level mutants Stale = si /
     mq / tm (a reload that changes only that parameter keeps the old checker) must be refuted.
+    SEVERAL THROTTLING RULES ON ONE RESOURCE (spec/ThrottleList.tla, sequential callers): the flow slot walks the rules in
+    list order, the clock advances by each wait; the model records only the request-level observables (arrival, batch,
+    decision, total wait, rule named by a rejection) and its invariants are the clauses PER RULE over the records that
+    ThrottleProp!Attribute derives from them (the judgement Throttle_Trace applies to recorded executions); AttrExact:
+    the attribution recovers what happened at every rule.  Spec-level mutants Mode = atarrival (every rule checked at
+    the arrival instant, one sleep of the longest wait) and consultall (a rejection does not end the walk) must be refuted.
 S2  gate scenarios: TLC random simulation, the mutants' counterexamples, seeded random schedules (constant and
     per-caller thresholds);
     sequential scenarios in virtual nanoseconds: seeded random Direct rules (fractional / zero thresholds, batches 0..3,
@@ -22,6 +28,10 @@ S2  gate scenarios: TLC random simulation, the mutants' counterexamples, seeded 
     inside the checker); sequential histories through api.Entry in which flow.LoadRules / LoadRulesOfResource replace
     the rule between requests, changing exactly one of Threshold / StatIntervalInMs / MaxQueueingTimeMs (or the
     MemoryAdaptive thresholds), or nothing.
+    Lists of 2-3 rules through api.Entry under the advancing virtual clock (mode list): every history of the bounded
+    ThrottleList configurations (a seeded sample of the leaves TLC enumerates), the mutants' counterexamples, seeded random
+    lists, and the family "queue of a fast rule deeper than the interval of a slower rule behind it" (burst, pause,
+    back-to-back requests).
 S3  harness/cmd/c10 (gate on the th.* hooks / api.Entry with the virtual clock recording the requested Sleep / DoCheck).
 S4  spec/Throttle_Trace.tla (TLC) judges the recorded request-level traces with the same operators; it derives the
     threshold of a MemoryAdaptive request from the published memory usage (ThrottleProp!MemThr) and the owed spacing
@@ -316,6 +326,110 @@ def rl_scn(tr, rng, mem=False):
     return out
 
 
+
+# ---- several throttling rules on one resource (spec/ThrottleList.tla) ------------------------------------------------
+LCFG = """SPECIFICATION Spec
+CONSTANTS
+  Rules <- %(rules)s
+  Bts <- %(bts)s
+  Gaps <- %(gaps)s
+  NReq = %(nreq)d
+  Mode = "%(mode)s"
+INVARIANTS %(inv)s
+CHECK_DEADLOCK FALSE
+%(extra)s"""
+LALLINV = 'SpacingInv BoundedWaitInv NoSpuriousInv RejectInv AttrExact'
+# Python mirror of the rule lists of spec/ThrottleList_MC.tla: (si, mq, tn, td) in ticks (the driver runs a tick as 1 ms)
+LRULES = {'MCRulesA': [(4, 4, 2, 1), (6, 0, 2, 1)], 'MCRulesB': [(4, 2, 4, 1), (4, 2, 2, 1)],
+          'MCRulesC': [(4, 3, 4, 1), (6, 0, 2, 1), (4, 1, 2, 1)], 'MCRulesD': [(4, 3, 4, 1), (3, 2, 1, 1), (4, 2, 0, 1)],
+          'MCRulesE': [(6, 1, 2, 1), (4, 4, 2, 1)]}
+L_A = dict(rules='MCRulesA', bts='MCB1', gaps='MCG03')
+L_B = dict(rules='MCRulesB', bts='MCB12', gaps='MCG012')
+L_C = dict(rules='MCRulesC', bts='MCB1', gaps='MCG013')
+L_D = dict(rules='MCRulesD', bts='MCB012', gaps='MCG012')
+L_E = dict(rules='MCRulesE', bts='MCB1', gaps='MCG0124')
+
+
+def lcfg(rules, bts, gaps, nreq, mode='seq', inv=LALLINV, extra=''):
+    return LCFG % dict(rules=rules, bts=bts, gaps=gaps, nreq=nreq, mode=mode, inv=inv, extra=extra)
+
+
+def last_hist(out):
+    """the input history h = <<[gap, batch], ...>> of the last state of a TLC counterexample"""
+    m = re.findall(r'/\\ h = (.*?)(?=\n/\\|\n\n|\Z)', out, re.S)
+    return [(int(a), int(b)) for a, b in re.findall(r'gap \|-> (\d+), batch \|-> (\d+)', m[-1])] if m else None
+
+
+def tick_list_scn(tr, rules, hist, via='res', src='tlc'):
+    """a history of ThrottleList (ticks) for the driver: one tick = 1 ms"""
+    return dict(tr=tr, mode='list', via=via, src=src,
+                rules=[dict(thr_num=n, thr_den=d, interval_ms=si, maxq_ms=mq) for si, mq, n, d in LRULES[rules]],
+                reqs=[dict(gap=g * NS, batch=b) for g, b in hist])
+
+
+LTHR_POOL = [Fraction(1, 2), Fraction(1), Fraction(2), Fraction(5, 2), Fraction(4), Fraction(5), Fraction(10), Fraction(20), Fraction(100)]
+
+
+def rnd_list_scn(tr, rng):
+    """2-3 Direct + Throttling rules on one resource, sequential requests through api.Entry: gaps around the spacing and
+    the queueing limit of a rule of the list"""
+    n = rng.choice([2, 2, 2, 3])
+    rules, bases = [], []
+    while len(rules) < n:
+        thr, interval_ms = rng.choice(LTHR_POOL), rng.choice([1, 2, 5, 10, 20, 50, 100, 200, 1000])
+        base = owed(1, thr, interval_ms)
+        if base > 200 * NS:
+            continue
+        rules.append(dict(thr_num=thr.numerator, thr_den=thr.denominator, interval_ms=interval_ms))
+        bases.append(base)
+    for r in rules:
+        ms = max(1, ceil(Fraction(rng.choice(bases), NS)))
+        r['maxq_ms'] = min(250, rng.choice([0, 0, 1, ms - 1, ms, ms, 2 * ms, 3 * ms, 5 * ms, 20, 100]))
+    worst = sum(r['maxq_ms'] for r in rules) * NS
+    reqs, t = [], 0
+    for _ in range(rng.randint(5, 16)):
+        b = rng.choice([1, 1, 1, 1, 1, 2, 0, 3])
+        j = rng.randrange(n)
+        gap = rng.choice([0, 0, 0, gaps(rng, bases[j], rules[j]['maxq_ms']), max(bases) + rng.choice([0, 1, min(bases)])])
+        if t + gap + worst + 3 * max(bases) + 2 > BUDGET:
+            break
+        t += gap + worst
+        reqs.append(dict(gap=gap, batch=b))
+    if not reqs:
+        reqs = [dict(gap=0, batch=1)]
+    return dict(tr=tr, mode='list', via=rng.choice(['all', 'res']), src='random', rules=rules, reqs=reqs)
+
+
+def shape_list_scn(tr, rng):
+    """a fast rule that queues in front of a slower rule with a short (or no) queue, the fast rule's limit at least the
+    slow rule's interval; a burst of back-to-back requests, a pause of about the slow interval, back-to-back requests
+    again, stragglers.  (30 %: a third rule somewhere in the list; 15 %: the two rules the other way round.)"""
+    while True:
+        iv_a = rng.choice([1, 2, 5, 10])                                       # ms per token of the fast rule
+        k = rng.choice([2, 3, 5])
+        iv_b = k * iv_a + rng.choice([0, 0, 1])
+        mq_a = rng.choice([iv_b, iv_b + iv_a, 2 * iv_b, 3 * iv_b])
+        mq_b = rng.choice([0, 0, 0, 1, iv_a])
+
+        def rule(iv_ms, mq):
+            interval_ms = rng.choice([x for x in (100, 200, 1000) if x % iv_ms == 0] or [iv_ms])
+            return dict(thr_num=interval_ms // iv_ms, thr_den=1, interval_ms=interval_ms, maxq_ms=mq)
+        rules = [rule(iv_a, mq_a), rule(iv_b, mq_b)]
+        if rng.random() < 0.15:
+            rules.reverse()
+        if rng.random() < 0.3:
+            iv_c = rng.choice([1, iv_a, 2 * iv_a])
+            rules.insert(rng.randint(0, 2), rule(iv_c, rng.choice([0, iv_c, iv_b, 2 * iv_b])))
+        worst = sum(r['maxq_ms'] for r in rules) * NS
+        reqs = [dict(gap=0, batch=1) for _ in range(mq_a // iv_a + rng.randint(0, 3))]
+        reqs.append(dict(gap=(iv_b + rng.choice([0, 0, 1, iv_a, iv_b // 2])) * NS, batch=1))
+        reqs += [dict(gap=0, batch=1) for _ in range(rng.randint(1, 3))]
+        for _ in range(rng.randint(0, 5)):
+            reqs.append(dict(gap=rng.choice([0, 1, iv_a * NS - 1, iv_a * NS, iv_b * NS, rng.randint(0, 2 * iv_b * NS)]), batch=rng.choice([1, 1, 1, 2])))
+        if sum(q['gap'] + worst for q in reqs) + 3 * iv_b * NS < BUDGET:
+            return dict(tr=tr, mode='list', via=rng.choice(['all', 'res']), src='shape', rules=rules, reqs=reqs)
+
+
 class _Lane:
     """a private scratch directory for one Check.tlc call: lets several small TLC runs (spec-level mutants, simulations)
     go side by side without sharing the run counter / directories of the check object"""
@@ -338,7 +452,17 @@ def run_and_validate(c, drv, scns, tag):
     tp = os.path.join(c.scratch, tag + '.trace.ndjson')
     write_ndjson(sp, scns)
     c.run([drv, sp, tp], timeout=1200)
-    nlines = sum(1 for _ in open(tp))
+    nlines = 0
+    for ln in open(tp):
+        nlines += 1
+        if '"retl"' in ln and not tag.startswith(('confirm', 'replay')):     # several rules on one resource: what the executions exercised
+            e = json.loads(ln)
+            lc = c.cov.setdefault('several_rules_requests', dict(admitted_after_waiting=0, rejected_by_a_rule_behind_the_first=0,
+                                                                 rejected_after_waiting_at_a_rule_in_front=0, rejection_naming_no_rule=0))
+            lc['admitted_after_waiting'] += e['res'] == 'pass' and e['w'] > 0
+            lc['rejected_by_a_rule_behind_the_first'] += e['res'] == 'reject' and e['by'] >= 2
+            lc['rejected_after_waiting_at_a_rule_in_front'] += e['res'] == 'reject' and e['w'] > 0
+            lc['rejection_naming_no_rule'] += e['res'] == 'reject' and e['by'] == 0
     mism, consumed, r = c.validate('Throttle_Trace', tp, nlines)
     if consumed != nlines:
         raise MachineryError('%s: trace validation consumed %d of %d lines\n%s' % (tag, consumed, nlines, r.out[-1500:]))
@@ -360,6 +484,9 @@ def describe(s):
     if s['mode'] == 'gapi':
         return ('forced schedule %s on api.Entry (-1 = the rule is replaced), Direct+Throttling rule threshold=%s si=%sms maxq=%sms, batches=%s, reloads=%s'
                 % (s['sched'], s['th'], s['si'], s['maxq'], s['bt'], s['reloads']))
+    if s['mode'] == 'list':
+        return ('sequential history through api.Entry on a resource with %d Direct+Throttling rules (in list order: %s), requests %s'
+                % (len(s['rules']), ['%s/%s per %sms maxq=%sms' % (r['thr_num'], r['thr_den'], r['interval_ms'], r['maxq_ms']) for r in s['rules']], s['reqs']))
     if s['mode'] == 'chk':
         return 'sequential DoCheck calls with per-call thresholds interval=%sms maxq=%sms sleep=%s %s' % (s['interval_ms'], s['maxq_ms'], s.get('sleep'), s['reqs'])
     rl = ' with rule reloads (changing %s)' % s['rl'] if s.get('rl') else ''
@@ -398,7 +525,7 @@ def binding_selftest(c, tp):
     lines = [json.loads(l) for l in open(tp)]
     traces, cur = [], None
     for e in lines:
-        if e['op'] == 'new':
+        if e['op'] in ('new', 'newl'):
             cur = []
             traces.append(cur)
         cur.append(e)
@@ -472,14 +599,44 @@ def binding_selftest(c, tp):
     if nrl == 0:
         raise MachineryError('binding self-test: no reload trace with a request that waited behind another one of its epoch')
     want += nrl
+    # several rules on one resource (sequential callers).  Guaranteed breaches: (0) the total wait of an admitted request that
+    # waited is zeroed - it passes the rule it queued at too early; (1) the total wait exceeds the sum of all queueing limits -
+    # some rule made it wait beyond its limit; (2) a request that a rule with a positive threshold rejected for queueing too
+    # long is recorded as admitted with the same total wait - it passes that rule earlier than the spacing it could not wait for
+    lk = [0, 0, 0]
+    for t in traces:
+        if min(lk) >= 10:
+            break
+        if t[0]['op'] != 'newl' or any(e['op'] == 'invl' and e['arr'] > 10 ** 9 for e in t):
+            continue
+        t = [dict(e) for e in t]
+        rules = t[0]['list']
+        waited = [e for e in t if e['op'] == 'retl' and e['res'] == 'pass' and e['w'] > 0]
+        named = [e for e in t if e['op'] == 'retl' and e['res'] == 'reject' and e['by'] > 0 and rules[e['by'] - 1]['tn'] > 0]
+        ok = [k for k in ((0, 1) if waited else ()) + ((2,) if named else ()) if lk[k] < 10]
+        if not ok:
+            continue
+        k = min(ok, key=lambda x: lk[x])
+        if k == 0:
+            waited[0]['w'] = 0
+        elif k == 1:
+            waited[0]['w'] = sum(r['maxq'] for r in rules) + 10
+        else:
+            named[0]['res'], named[0]['by'] = 'pass', 0
+        lk[k] += 1
+        out += t
+        want += 1
+    if min(lk) == 0:
+        raise MachineryError('binding self-test: not every kind of corruption could be applied to the traces with several rules: %s' % lk)
     cp = os.path.join(c.scratch, 'corrupt.ndjson')
     write_ndjson(cp, out)
     mism, consumed, r = c.validate('Throttle_Trace', cp, len(out))
     if len({m[0] for m in mism}) != want:
-        missed = sorted({e['tr'] for e in out if e['op'] == 'new'} - {m[0] for m in mism})
+        missed = sorted({e['tr'] for e in out if e['op'] in ('new', 'newl')} - {m[0] for m in mism})
         raise MachineryError('binding self-test failed: %d corrupted traces, %d rejected; accepted: traces %s' % (want, len(mism), missed[:5]))
     c.cov['binding_selftest'] = ('%d corrupted traces (%d wait zeroed / %d wait beyond the limit / %d threshold of the request quartered / '
-                                 '%d statistic interval announced by a reload quadrupled), all rejected' % (want, kinds[0], kinds[1], kinds[2], nrl))
+                                 '%d statistic interval announced by a reload quadrupled / several rules: %d total wait zeroed, %d total wait beyond '
+                                 'the sum of the limits, %d rejection recorded as admission), all rejected' % (want, kinds[0], kinds[1], kinds[2], nrl, lk[0], lk[1], lk[2]))
     c.log('binding self-test: %d corrupted traces, all rejected' % want)
 
 
@@ -532,6 +689,38 @@ def check(c, tier, replay):
         tr += 1
         scns.append(mk(tr, last_sched(r.out) + [1, 2, 3] * 6, **k))
         muts.append('%s: %s: %s' % (name, inv, scns[-1]['sched']))
+    # several rules on one resource (ThrottleList): exhaustive over every history of the bounded configurations; the same runs
+    # print the complete histories (leaves) as scenarios; two spec-level mutants must be refuted
+    lgen = [dict(nreq=8, **L_A), dict(nreq=5, **L_B), dict(nreq=7, **L_C), dict(nreq=4, **L_D), dict(nreq=6, **L_E)]
+    lbig = [dict(nreq=13, **L_A), dict(nreq=7, **L_B), dict(nreq=10, **L_C), dict(nreq=6, **L_D), dict(nreq=9, **L_E)] if thorough else []
+    lmut = [('every rule checked at the arrival instant, one sleep of the longest wait (Mode=atarrival)', 'atarrival', 'SpacingInv', dict(nreq=8, **L_A)),
+            ('every rule checked at the arrival instant, one sleep of the longest wait (Mode=atarrival)', 'atarrival', 'SpacingInv', dict(nreq=7, **L_C)),
+            ('a rejection does not end the walk over the rules (Mode=consultall)', 'consultall', 'NoSpuriousInv', dict(nreq=7, **L_C))]
+    res = par_tlc(c, 'lst', [dict(module='ThrottleList_MC', cfg_text=lcfg(extra='ACTION_CONSTRAINT Leaf\n', **k), workers=2, timeout=600, count=False) for k in lgen] +
+                  [dict(module='ThrottleList_MC', cfg_text=lcfg(**k), workers=8, timeout=3000, heap='8g', count=False) for k in lbig] +
+                  [dict(module='ThrottleList_MC', cfg_text=lcfg(mode=m, inv=inv, **k), workers=2, timeout=600, count=False) for _, m, inv, k in lmut], width=8)
+    lleaves, lcex = [], []
+    for k, r in zip(lgen + lbig, res):
+        if r.error:
+            raise MachineryError('TLC failed on ThrottleList_MC %s: %s\n%s' % (k, r.error, r.out[-3000:]))
+        c.cov['states'] += r.distinct
+        c.cov['transitions'] += r.generated
+        c.cov['tlc_runs'].append(dict(module='ThrottleList_MC', cfg=str(k), generated=r.generated, distinct=r.distinct, depth=r.depth,
+                                      wall_s=round(r.wall, 1), args='', result='ok' if r.completed else r.violated))
+        c.log('S1 ThrottleList_MC %s: %d distinct states, %d transitions, depth %d, %.0fs -> %s' % (
+            k, r.distinct, r.generated, r.depth, r.wall, 'no error' if r.completed else 'VIOLATED ' + str(r.violated)))
+        if not r.completed:
+            c.inconclusive.append('ThrottleList.tla (rules in list order, the clock advances by each wait) violates %s for %s' % (r.violated, k))
+        if k in lgen:
+            hs = [[(q['gap'], q['batch']) for q in h] for h in r.json_prints() if len(h) == k['nreq']]
+            if not hs:
+                raise MachineryError('ThrottleList_MC %s printed no history' % k)
+            lleaves.append((k, hs))
+    for (name, m, inv, k), r in zip(lmut, res[len(lgen) + len(lbig):]):
+        if r.violated != inv:
+            raise MachineryError('vacuity guard: the mutant "%s" must violate %s, got %s' % (name, inv, r.violated or r.error))
+        lcex.append((k['rules'], last_hist(r.out) + [(0, 1), (1, 1), (0, 1)]))
+        muts.append('%s: %s: %s on %s' % (name, inv, lcex[-1][1], k['rules']))
     c.cov['spec_mutants'] = muts
     c.log('S1 vacuity guard: spec-level mutants refuted: %s' % muts)
     # S2 ---------------------------------------------------------------------------------------
@@ -587,15 +776,31 @@ def check(c, tier, replay):
     for i in range(400 if not thorough else 5000):
         tr += 1
         scns.append(rl_scn(tr, rng2, mem=True))
+    # several throttling rules on one resource: the histories TLC enumerated (seeded sample), random lists, the shape
+    # "queue of the fast rule deeper than the interval of the slower rule behind it"
+    rng3 = random.Random(c.seed * 7919 + 11)
+    for rules, hist in lcex:
+        tr += 1
+        scns.append(tick_list_scn(tr, rules, hist, src='mutant'))
+    for k, hs in lleaves:
+        for hist in (hs if thorough or len(hs) <= 120 else rng3.sample(hs, 120)):
+            tr += 1
+            scns.append(tick_list_scn(tr, k['rules'], hist, via=rng3.choice(['all', 'res'])))
+    for i in range(600 if not thorough else 8000):
+        tr += 1
+        scns.append(rnd_list_scn(tr, rng3))
+    for i in range(400 if not thorough else 5000):
+        tr += 1
+        scns.append(shape_list_scn(tr, rng3))
     # the first chunk feeds the binding self-test: it must contain every kind of scenario
     head = ([x for x in scns if x.get('rl') or x['mode'] == 'gapi'][:300] + [x for x in scns if x['mode'] == 'seq' and not x.get('rl')][:200] +
-            [x for x in scns if x['mode'] == 'chk'][:100])
+            [x for x in scns if x['mode'] == 'chk'][:100] + [x for x in scns if x['mode'] == 'list'][:150])
     hid = {x['tr'] for x in head}
     order = head + [x for x in scns if x['tr'] not in hid]
     # S3 + S4 ----------------------------------------------------------------------------------
     first = True
-    for i in range(0, len(order), 4000):
-        part = order[i:i + 4000]
+    for i in range(0, len(order), 5000):
+        part = order[i:i + 5000]
         mism, tp = run_and_validate(c, drv, part, 'scn%d' % i)
         c.cov['conformance_mismatches'] += len(mism)
         handle(c, drv, part, mism, 'scn')
@@ -604,7 +809,7 @@ def check(c, tier, replay):
             first = False
     c.cov['distinct_nontrivial'] = len({json.dumps(s, sort_keys=True) for s in
                                         [dict(x, tr=0) for x in scns if (x['mode'] in ('gate', 'gapi') and len(set(x['sched']) - {0, -1}) > 1) or
-                                         (x['mode'] in ('seq', 'chk') and len([q for q in x['reqs'] if q.get('op') != 'reload']) > 1)]})
+                                         (x['mode'] in ('seq', 'chk', 'list') and len([q for q in x['reqs'] if q.get('op') != 'reload']) > 1)]})
 
     def nthr(x):    # distinct thresholds handed to one checker
         if x['mode'] == 'gate':
@@ -632,6 +837,9 @@ def check(c, tier, replay):
         for k in (x.get('rl') or [r.get('kind', 'tlc') for r in x['reloads']]):
             kinds[k] = kinds.get(k, 0) + 1
     c.cov['reloads_by_changed_parameter'] = kinds
+    lsts = [x for x in scns if x['mode'] == 'list']
+    c.cov['scenarios_with_several_rules'] = dict(total=len(lsts), **{k: sum(1 for x in lsts if x['src'] == k) for k in ('tlc', 'mutant', 'random', 'shape')},
+                                                 three_rules=sum(1 for x in lsts if len(x['rules']) == 3))
     c.cov['rule'] = ('gate scenario = schedule forced on flow.ThrottlingChecker.DoCheck at the th.* yield points (%d from TLC: simulation of '
                      'Throttle + counterexamples of the spec-level mutants; %d seeded random with a constant threshold, %d with per-caller thresholds); '
                      'sequential scenario = arrival history in virtual ns: seeded random Direct throttling rule through api.Entry (%d), '
@@ -639,11 +847,13 @@ def check(c, tier, replay):
                      'per-call thresholds (%d); rule replaced under traffic (flow.LoadRules / LoadRulesOfResource changing exactly one of threshold, '
                      'statistic interval, queueing limit, or nothing): schedules with reload steps forced on api.Entry (%d, of which %d from TLC), '
                      'sequential histories with reloads through api.Entry (%d Direct, %d MemoryAdaptive); '
+                     'several Direct+Throttling rules on one resource through api.Entry, sequential (%d, of which %d histories enumerated by TLC on ThrottleList); '
                      'non-trivial = distinct scenario with >= 2 callers moving / >= 2 requests'
                      % (sum(1 for x in scns[:ntlc] if x['mode'] == 'gate'), ngate - ntlc, sum(1 for x in scns[nseq:] if x['mode'] == 'gate'), nseq - ngate,
                         sum(1 for x in scns if x.get('strategy') == 'mem' and not x.get('rl')), sum(1 for x in scns if x['mode'] == 'chk'),
                         sum(1 for x in scns if x['mode'] == 'gapi'), sum(1 for x in scns[:ntlc] if x['mode'] == 'gapi'),
-                        sum(1 for x in scns if x.get('rl') and x.get('strategy') != 'mem'), sum(1 for x in scns if x.get('rl') and x.get('strategy') == 'mem')))
+                        sum(1 for x in scns if x.get('rl') and x.get('strategy') != 'mem'), sum(1 for x in scns if x.get('rl') and x.get('strategy') == 'mem'),
+                        len(lsts), sum(1 for x in lsts if x['src'] == 'tlc')))
     c.sample(scns[0])
     c.sample(scns[ngate - 1])
     c.sample(scns[nseq - 1])
@@ -652,6 +862,7 @@ def check(c, tier, replay):
     c.sample([x for x in scns if x['mode'] == 'chk'][-1])
     c.sample([x for x in scns if x['mode'] == 'gapi'][0])
     c.sample([x for x in scns if x.get('rl')][0])
+    c.sample([x for x in lsts if x['src'] == 'shape'][0])
     c.assumptions += ['spacing entitlement iv = ceil(batch * interval / threshold of that request) computed exactly (integers) by the trace spec; the real code may round '
                       'one ns up (float): NoSpuriousReject is judged with 1 ns slack in sequential traces',
                       'relative virtual times stay below 2^31 ns in sequential traces (TLC integers)',
@@ -663,6 +874,11 @@ def check(c, tier, replay):
                       'epoch of the rule list only (the first request after a reload owes nothing to passes scheduled under the previous rule; that an '
                       'unchanged reload keeps the queue position is C14), a rejection may count admitted requests of any epoch but only with the '
                       'spacing and the limit of the rule in force at its own arrival; the api.Entry gate (gapi) runs Direct rules with last0 = 0 only',
+                      'several throttling rules on one resource (sequential callers): only the total wait of a request is observable; the trace '
+                      'spec attributes it to the rules in list order (ThrottleProp!Attribute: least wait that keeps each rule\'s spacing, the last '
+                      'rule takes the rest; a rejected request holds a reservation at every rule in front of the rejecting one and is judged at '
+                      'arrival + what it really slept) and judges Spacing / BoundedWait / NoSpuriousReject per rule; 1 ns slack per rule in front for '
+                      'the float rounding of a spacing; concurrent callers on a list of rules and reloads of a list are not driven',
                       'gate scenarios keep statInterval / threshold a whole number of ticks for every threshold of the scenario',
                       'exhaustive interleavings only for the bounded configurations listed in tlc_runs']
 
